@@ -2,6 +2,7 @@ package zygo
 
 import (
 	"fmt"
+	"math"
 	"reflect"
 	"strconv"
 	"strings"
@@ -503,6 +504,11 @@ func (i *SexpUint64) SexpString(ps *PrintState) string {
 
 func (f *SexpFloat) SexpString(ps *PrintState) string {
 	if f.Scientific {
+		return strconv.FormatFloat(f.Val, 'e', -1, SexpFloatSize)
+	}
+	// Plain digits without a fraction read back as an integer literal, which
+	// overflows int64 from 2^63 on: print large magnitudes with an exponent.
+	if a := math.Abs(f.Val); a >= 1e18 && !math.IsInf(a, 0) {
 		return strconv.FormatFloat(f.Val, 'e', -1, SexpFloatSize)
 	}
 	return strconv.FormatFloat(f.Val, 'f', -1, SexpFloatSize)
